@@ -53,6 +53,9 @@ func (pc *PCase) prepare() {
 	pc.Lox, pc.Pos = pc.G.Lox()
 	h, in, st := pc.G.Harness(pc.Opt)
 	pc.Files = map[string]string{"g.lox": pc.Lox, "harness.go": h}
+	for fn, src := range pc.G.OtherFiles {
+		pc.Files[fn] = src
+	}
 	pc.Intern, pc.Stub = in, st
 }
 
